@@ -446,10 +446,14 @@ Section ListHelpers2.
                    end.
 End ListHelpers2.
 
-(* fixLayout.  In the Tuple case the pinned code reads value.List[i] (nil for a tuple value: index out of
-   range for every non-empty tuple); the fixed code reads value.Tuple[i]. *)
+(* fixLayout.  Three versions of the Tuple case:
+   listbug       the pinned code reads value.List[i] (nil for a tuple value: index out of range for every
+                 non-empty tuple);
+   no padding    after `fix: COALESCE over tuples reads the tuple's elements`: value.Tuple[i], result as long as the value;
+   padding       after `fix: COALESCE over tuples of different lengths pads the shorter tuple with NULLs`:
+                 the result is as long as the mapping (= the output tuple type), missing elements are NULL. *)
 Section FixLayout.
-  Variable pinned : bool.
+  Variable listbug pad : bool.
   Fixpoint fix_layout_gen (m : lmap) (v : value) {struct v} : outcome value :=
     match v with
     | VStruct fields =>
@@ -474,18 +478,19 @@ Section FixLayout.
         | _, LMap _ None _ => Panic P_nil
         end
     | VTuple elems =>
-        match elems, m with
-        | [], _ => Ok (VTuple [])
-        | _, LMap _ _ (Some ems) =>
-            if pinned then Panic P_index       (* value.List[0] of a tuple value *)
-            else obind (omap2_list fix_layout_gen elems ems) (fun l => Ok (VTuple l))
-        | _, LMap _ _ None => Panic P_nil
+        match m with
+        | LMap _ _ (Some ems) =>
+            if listbug then match elems with [] => Ok (VTuple []) | _ => Panic P_index end   (* value.List[0] of a tuple value *)
+            else obind (omap2_list fix_layout_gen elems ems)
+                       (fun l => Ok (VTuple (if pad then l ++ repeat VNull (length ems - length elems) else l)))
+        | LMap _ _ None => match elems with [] => Ok (VTuple []) | _ => Panic P_nil end
         end
     | _ => Ok v
     end.
 End FixLayout.
-Definition fix_layout := fix_layout_gen false.
-Definition fix_layout_pinned := fix_layout_gen true.
+Definition fix_layout := fix_layout_gen false true.
+Definition fix_layout_nopad := fix_layout_gen false false.     (* between the two tuple fixes *)
+Definition fix_layout_pinned := fix_layout_gen true false.
 
 (* ---- calculateMapping ---- *)
 Inductive lty :=
@@ -516,19 +521,21 @@ Definition E_fuel : Z := 99.
 
 (* fuel bounds the nesting depth of the two types (every recursive call descends in the source or in the
    target type); running out of it is the error E_fuel, never a mapping *)
-Fixpoint calc_mapping (fuel : nat) (tgt src : lty) {struct fuel} : outcome lmap :=
+Section CalcMapping.
+Variable pad : bool.    (* false: the code before the tuple-length fix (indexes sourceType.Tuple.Elements[i] for every target element) *)
+Fixpoint calc_mapping_gen (fuel : nat) (tgt src : lty) {struct fuel} : outcome lmap :=
   match fuel with
   | O => Err E_fuel
   | S fuel' =>
       match src with
       | TUnion alts =>
-          fold_left (fun acc a => obind acc (fun m => obind (calc_mapping fuel' tgt a) (fun m' => Ok (merge_mappings m m'))))
+          fold_left (fun acc a => obind acc (fun m => obind (calc_mapping_gen fuel' tgt a) (fun m' => Ok (merge_mappings m m'))))
                     alts (Ok lmap_empty)
       | _ =>
           match tgt with
           | TUnion alts =>
               match find (fun a => lty_id a =? lty_id src) alts with
-              | Some a => calc_mapping fuel' a src
+              | Some a => calc_mapping_gen fuel' a src
               | None => Panic P_nil       (* panic("calculateMapping unreachable target Union alternative") *)
               end
           | TStruct tfs =>
@@ -537,22 +544,30 @@ Fixpoint calc_mapping (fuel : nat) (tgt src : lty) {struct fuel} : outcome lmap 
                        let i := last_index_of (fst tf) sfs 0 (-1) in
                        if i =? -1 then Ok (-1, lmap_empty)
                        else nth_apply (fun sf : list Z * lty =>
-                                         obind (calc_mapping fuel' (snd tf) (snd sf)) (fun m => Ok (i, m)))
+                                         obind (calc_mapping_gen fuel' (snd tf) (snd sf)) (fun m => Ok (i, m)))
                                       sfs (Z.to_nat i)) tfs)
                     (fun l => Ok (LMap (Some l) None None))
           | TList tel =>
               match tel, src with
-              | Some te, TList (Some se) => obind (calc_mapping fuel' te se) (fun m => Ok (LMap None (Some m) None))
+              | Some te, TList (Some se) => obind (calc_mapping_gen fuel' te se) (fun m => Ok (LMap None (Some m) None))
               | _, _ => Ok lmap_empty
               end
           | TTuple tes =>
               let ses := match src with TTuple l => l | _ => [] end in
-              obind (omap2_list (fun s t => calc_mapping fuel' t s) tes ses)
-                    (fun ms => Ok (LMap None None (Some ms)))
+              if pad then
+                (* for i := range mappings { if i >= len(source elements) { break }; ... }: the rest stays LayoutMapping{} *)
+                obind (omap2_list (fun s t => calc_mapping_gen fuel' t s) (firstn (length ses) tes) ses)
+                      (fun ms => Ok (LMap None None (Some (ms ++ repeat lmap_empty (length tes - length ses)))))
+              else
+                obind (omap2_list (fun s t => calc_mapping_gen fuel' t s) tes ses)
+                      (fun ms => Ok (LMap None None (Some ms)))
           | TPrim _ => Ok lmap_empty
           end
       end
   end.
+End CalcMapping.
+Definition calc_mapping := calc_mapping_gen true.
+Definition calc_mapping_pinned := calc_mapping_gen false.
 Definition mapping_fuel : nat := 64.
 
 (* Coalesce.Evaluate: (result, number of argument expressions evaluated).  maps = the fixer's mappings. *)
@@ -570,15 +585,15 @@ Definition coalesce (args : list carg) (maps : list lmap) := coalesce_gen fix_la
 Definition coalesce_pinned (args : list carg) (maps : list lmap) := coalesce_gen fix_layout_pinned args maps 0.
 
 (* NewObjectLayoutFixer(target, sources) then Evaluate *)
-Definition coalesce_typed_gen (fixl : lmap -> value -> outcome value) (tgt : lty) (srcs : list lty) (args : list carg)
-  : outcome value * Z :=
-  match omap_list (calc_mapping mapping_fuel tgt) srcs with
+Definition coalesce_typed_gen (calc : nat -> lty -> lty -> outcome lmap) (fixl : lmap -> value -> outcome value)
+  (tgt : lty) (srcs : list lty) (args : list carg) : outcome value * Z :=
+  match omap_list (calc mapping_fuel tgt) srcs with
   | Ok maps => coalesce_gen fixl args maps 0
   | Err e => (Err e, 0)
   | Panic p => (Panic p, 0)
   end.
-Definition coalesce_typed := coalesce_typed_gen fix_layout.
-Definition coalesce_typed_pinned := coalesce_typed_gen fix_layout_pinned.
+Definition coalesce_typed := coalesce_typed_gen calc_mapping fix_layout.
+Definition coalesce_typed_pinned := coalesce_typed_gen calc_mapping_pinned fix_layout_pinned.
 
 (* ---- the specification of the layout change, by field name, without the intermediate mapping ---- *)
 Fixpoint find_field (name : list Z) (fs : list (list Z * lty)) (vs : list value) (acc : option (lty * value))
@@ -587,32 +602,150 @@ Fixpoint find_field (name : list Z) (fs : list (list Z * lty)) (vs : list value)
   | (n, t) :: fs', v :: vs' => find_field name fs' vs' (if list_eqb Z.eqb n name then Some (t, v) else acc)
   | _, _ => acc
   end.
-Definition pick_alt (id : Z) (t : lty) : lty :=
-  match t with
-  | TUnion alts => match find (fun a => lty_id a =? id) alts with Some a => a | None => t end
-  | _ => t
-  end.
+Definition is_union (t : lty) : bool := match t with TUnion _ => true | _ => false end.
+Definition find_alt (id : Z) (alts : list lty) : option lty := find (fun a => lty_id a =? id) alts.
+Definition field_index (name : list Z) (sfs : list (list Z * lty)) : Z := last_index_of name sfs 0 (-1).
+
+Section Zip3.
+  Context {A B C D : Type}.
+  Variable f : A -> B -> C -> D.
+  Fixpoint zip3 (la : list A) (lb : list B) (lc : list C) : list D :=
+    match la, lb, lc with
+    | a :: la', b :: lb', c :: lc' => f a b c :: zip3 la' lb' lc'
+    | _, _, _ => []
+    end.
+End Zip3.
+Fixpoint forallb2p {A B} (f : A -> B -> bool) (la : list A) (lb : list B) : bool :=
+  match la, lb with a :: la', b :: lb' => f a b && forallb2p f la' lb' | _, _ => true end.
+Fixpoint forallb3p {A B C} (f : A -> B -> C -> bool) (la : list A) (lb : list B) (lc : list C) : bool :=
+  match la, lb, lc with a :: la', b :: lb', c :: lc' => f a b c && forallb3p f la' lb' lc' | _, _, _ => true end.
+
+(* The specification of the layout change: the value of output type tgt that carries the argument value v of type
+   src — struct fields selected BY NAME (a field the argument lacks is NULL, one the output lacks is dropped),
+   list elements and tuple elements one by one, a shorter tuple padded with NULLs, unions resolved by the kind of
+   the value.  No mapping, no indices.  Fuel is consumed exactly as calc_mapping consumes it (one unit for a union
+   on the source side, one for a union on the target side, one per structural level), so that the same fuel suits
+   both; running out of it returns v, and C13_layout only speaks about fuels that the checkers below accept. *)
 Fixpoint reshape (fuel : nat) (tgt src : lty) (v : value) {struct fuel} : value :=
   match fuel with
   | O => v
-  | S fuel' =>
-      let src := pick_alt (tid v) src in
-      let tgt := pick_alt (tid v) tgt in
-      match v, tgt, src with
-      | VStruct vals, TStruct tfs, TStruct sfs =>
-          VStruct (map (fun tf : list Z * lty =>
-                          match find_field (fst tf) sfs vals None with
-                          | Some (st, fv) => reshape fuel' (snd tf) st fv
-                          | None => VNull
-                          end) tfs)
-      | VList vals, TList (Some te), TList (Some se) => VList (map (reshape fuel' te se) vals)
-      | VTuple vals, TTuple tes, TTuple ses =>
-          VTuple ((fix go (vs : list value) (ts ss : list lty) : list value :=
-                     match vs, ts, ss with
-                     | x :: xs, t :: ts', s :: ss' => reshape fuel' t s x :: go xs ts' ss'
-                     | _, _, _ => vs
-                     end) vals tes ses)
-      | _, _, _ => v
+  | S n =>
+      match src with
+      | TUnion alts => match find_alt (tid v) alts with Some a => reshape n tgt a v | None => v end
+      | _ =>
+          match tgt with
+          | TUnion talts => match find_alt (lty_id src) talts with Some a => reshape n a src v | None => v end
+          | TStruct tfs =>
+              match src, v with
+              | TStruct sfs, VStruct vals =>
+                  VStruct (map (fun tf : list Z * lty =>
+                                  match find_field (fst tf) sfs vals None with
+                                  | Some (st, fv) => reshape n (snd tf) st fv
+                                  | None => VNull
+                                  end) tfs)
+              | _, _ => v
+              end
+          | TList (Some te) =>
+              match src, v with
+              | TList (Some se), VList vals => VList (map (reshape n te se) vals)
+              | _, _ => v
+              end
+          | TList None => v
+          | TTuple tes =>
+              match src, v with
+              | TTuple ses, VTuple vals =>
+                  VTuple (zip3 (reshape n) tes ses vals ++ repeat VNull (length tes - length vals))
+              | _, _ => v
+              end
+          | TPrim _ => v
+          end
+      end
+  end.
+
+(* tgt can hold every value of src, as far as the layout fixer is concerned (type level; what TypeSum is meant to
+   guarantee for COALESCE's output type).  Unions: no union directly inside a union; against a non-union target
+   every alternative has the target's kind. *)
+Definition resolves (tgt a : lty) : bool := is_union tgt || (lty_id tgt =? lty_id a).
+Fixpoint tcovers (fuel : nat) (tgt src : lty) {struct fuel} : bool :=
+  match fuel with
+  | O => false
+  | S n =>
+      match src with
+      | TUnion alts => forallb (fun a => negb (is_union a) && resolves tgt a && tcovers n tgt a) alts
+      | _ =>
+          match tgt with
+          | TUnion talts => match find_alt (lty_id src) talts with Some a => tcovers n a src | None => false end
+          | TStruct tfs =>
+              match src with
+              | TStruct sfs =>
+                  forallb (fun tf : list Z * lty =>
+                             let i := field_index (fst tf) sfs in
+                             (i =? -1) || match nth_error sfs (Z.to_nat i) with
+                                          | Some sf => tcovers n (snd tf) (snd sf)
+                                          | None => false
+                                          end) tfs
+              | _ => false
+              end
+          | TList tel =>
+              match src with
+              | TList sel => match tel, sel with
+                             | Some te, Some se => tcovers n te se
+                             | _, None => true
+                             | None, Some _ => false
+                             end
+              | _ => false
+              end
+          | TTuple tes =>
+              match src with
+              | TTuple ses => (length ses <=? length tes)%nat && forallb2p (tcovers n) tes ses
+              | _ => false
+              end
+          | TPrim id => match src with TPrim id' => id =? id' | _ => false end
+          end
+      end
+  end.
+
+(* v is a value of type src, as far as the layout fixer looks at it: the struct fields the output type selects,
+   every list and tuple element; exactly one union alternative has the kind of the value. *)
+Fixpoint vfits (fuel : nat) (tgt src : lty) (v : value) {struct fuel} : bool :=
+  match fuel with
+  | O => false
+  | S n =>
+      match src with
+      | TUnion alts =>
+          Nat.eqb (length (filter (fun a => lty_id a =? tid v) alts)) 1 &&
+          match find_alt (tid v) alts with Some a => negb (is_union a) && vfits n tgt a v | None => false end
+      | _ =>
+          match tgt with
+          | TUnion talts => match find_alt (lty_id src) talts with Some a => vfits n a src v | None => false end
+          | TStruct tfs =>
+              match src, v with
+              | TStruct sfs, VStruct vals =>
+                  (length sfs =? length vals)%nat &&
+                  forallb (fun tf : list Z * lty =>
+                             let i := field_index (fst tf) sfs in
+                             (i =? -1) || match nth_error sfs (Z.to_nat i), nth_error vals (Z.to_nat i) with
+                                          | Some sf, Some fv => vfits n (snd tf) (snd sf) fv
+                                          | _, _ => false
+                                          end) tfs
+              | _, _ => false
+              end
+          | TList tel =>
+              match src, v with
+              | TList sel, VList vals =>
+                  match tel, sel with
+                  | Some te, Some se => forallb (vfits n te se) vals
+                  | _, _ => match vals with [] => true | _ => false end
+                  end
+              | _, _ => false
+              end
+          | TTuple tes =>
+              match src, v with
+              | TTuple ses, VTuple vals => (length vals =? length ses)%nat && forallb3p (vfits n) tes ses vals
+              | _, _ => false
+              end
+          | TPrim _ => match src with TPrim id' => is_scalar v && (id' =? tid v) | _ => false end
+          end
       end
   end.
 
@@ -690,7 +823,8 @@ Definition c13_spec (c : c13_case) : bool :=
       | Some (AErr, _) => (n =? evals_needed args) && match o with OErr => true | _ => false end
       | Some (AVal v, Some src) =>
           (n =? evals_needed args) &&
-          (negb (fits mapping_fuel src v) ||      (* ill-typed argument: only "no panic" is claimed *)
+          (negb (fits mapping_fuel src v || (tcovers mapping_fuel tgt src && vfits mapping_fuel tgt src v)) ||
+                                                  (* ill-typed argument: only "no panic" is claimed *)
            match o with OVal w => value_sim (reshape mapping_fuel tgt src v) w | _ => false end)
       | Some (AVal v, None) => true
       end end
